@@ -279,6 +279,14 @@ example : ElemLift (n := 2) (K := ℚ)
 
 example : (1 : Mat2 2 ℚ) ∈ symplecticGroup (Fin 2) ℚ := Submonoid.one_mem _
 
+/-- The flow lists built by `SymmetricCompositionIntegrator.__init__` satisfy the hypothesis of
+`symComp_jac_mem` as soon as the two component flows do (here: a three-stage scheme, 7 flows). -/
+example {h1T h2T : ℚ → TState 2 ℚ → TState 2 ℚ} {h1 h2 : ℚ → Phase 2 ℚ → Phase 2 ℚ}
+    (e1 : ElemLift h1T h1) (e2 : ElemLift h2T h2) :
+    List.Forall₂ ElemLift (mkSymComp h1T h2T [1 / 5, 3 / 10] true).flows
+      (mkSymComp h1 h2 [1 / 5, 3 / 10] true).flows :=
+  forall₂_flowsList ElemLift e1 e2 2
+
 /-! ### 4. For linear systems the lifted matrix is exactly the derivative of the step -/
 
 /-- `h1_flow` with an affine gradient `g q = A q + b` (quadratic potential). -/
@@ -433,5 +441,277 @@ example : (fromBlocks !![4 / 5] !![2 / 5] !![-2 / 5] !![4 / 5] : Mat2 1 ℚ)
     * (1 + (1 / 2 : ℚ) • (jMat 1 ℚ * 1)) = 1 := by
   rw [jMat, Matrix.mul_one, ← fromBlocks_one, fromBlocks_smul, fromBlocks_add, fromBlocks_multiply]
   congr 1 <;> ext i j <;> fin_cases i <;> fin_cases j <;> norm_num [Matrix.mul_apply]
+
+/-! ### 6. Generalised (implicit) leapfrog on a quadratic `h2`
+
+`h2(q, p) = ½ qᵀ Sqq q + qᵀ Sqp p + ½ pᵀ Spp p` with `Sqq`, `Spp` symmetric, `Sqp` arbitrary.
+For a non-quadratic `h2` the same statements hold with the Hessian blocks evaluated at the
+appropriate points (chain rule / implicit function theorem — trusted, checked numerically by the
+harness). -/
+
+/-- Block-diagonal `diag(A, D)` with `Aᵀ D = 1` (a linear point transformation `q ↦ A q` with the
+momenta transforming contragrediently). -/
+theorem diagBlocks_mem (A D : Mat n K) (h : Aᵀ * D = 1) :
+    fromBlocks A 0 0 D ∈ symplecticGroup (Fin n) K := by
+  rw [SymplecticGroup.fromBlocks_mem_iff]
+  simp [h]
+
+/-- Generalised leapfrog, forward pair (`_step_b_fwd(τ)` then `_step_c_fwd(τ)`, a symplectic-Euler
+step of the quadratic `h2`): neither factor is symplectic on its own, the pair is, whenever the
+implicit momentum equation is uniquely solvable (`W = (1 + τ Sqp)⁻¹`). -/
+theorem sympEuler_mem (τ : K) (Sqq Sqp Spp W : Mat n K) (hqq : Sqqᵀ = Sqq) (hpp : Sppᵀ = Spp)
+    (hW : W * (1 + τ • Sqp) = 1) :
+    glCFwdJac τ Sqp Spp * glBFwdJac τ Sqq W ∈ symplecticGroup (Fin n) K := by
+  have hfac : glCFwdJac τ Sqp Spp * glBFwdJac τ Sqq W
+      = driftJac τ Spp * (fromBlocks (1 + τ • Sqpᵀ) 0 0 W * kickJac τ Sqq) := by
+    simp [glCFwdJac, glBFwdJac, driftJac, kickJac, fromBlocks_multiply]
+  rw [hfac]
+  refine Submonoid.mul_mem _ (driftJac_mem τ Spp hpp)
+    (Submonoid.mul_mem _ (diagBlocks_mem _ _ ?_) (kickJac_mem τ Sqq hqq))
+  rw [transpose_add, transpose_one, transpose_smul, transpose_transpose]
+  exact _root_.mul_eq_one_comm.mp hW
+
+/-- Adjoint pair (`_step_c_adj(τ)` then `_step_b_adj(τ)`), `V = (1 − τ Sqpᵀ)⁻¹`. -/
+theorem sympEulerAdj_mem (τ : K) (Sqq Sqp Spp V : Mat n K) (hqq : Sqqᵀ = Sqq) (hpp : Sppᵀ = Spp)
+    (hV : V * (1 - τ • Sqpᵀ) = 1) :
+    glBAdjJac τ Sqq Sqp * glCAdjJac τ Spp V ∈ symplecticGroup (Fin n) K := by
+  have hfac : glBAdjJac τ Sqq Sqp * glCAdjJac τ Spp V
+      = kickJac τ Sqq * (fromBlocks V 0 0 (1 - τ • Sqp) * driftJac τ Spp) := by
+    simp [glBAdjJac, glCAdjJac, driftJac, kickJac, fromBlocks_multiply]
+  rw [hfac]
+  refine Submonoid.mul_mem _ (kickJac_mem τ Sqq hqq)
+    (Submonoid.mul_mem _ (diagBlocks_mem _ _ ?_) (driftJac_mem τ Spp hpp))
+  have h := congrArg transpose (_root_.mul_eq_one_comm.mp hV)
+  rw [transpose_mul, transpose_one, transpose_sub, transpose_one, transpose_smul,
+    transpose_transpose] at h
+  exact h
+
+/-- Jacobian of the whole `ImplicitLeapfrogIntegrator._step` (A, B-fwd, C-fwd, C-adj, B-adj, A) for
+a quadratic `h2` and any `h1` with symmetric Hessians `H₀`, `H₁` at the two kick positions. -/
+theorem genLeapfrog_mem (τ : K) (H₀ H₁ Sqq Sqp Spp W V : Mat n K) (h0 : H₀ᵀ = H₀) (h1 : H₁ᵀ = H₁)
+    (hqq : Sqqᵀ = Sqq) (hpp : Sppᵀ = Spp) (hW : W * (1 + τ • Sqp) = 1)
+    (hV : V * (1 - τ • Sqpᵀ) = 1) :
+    genLeapfrogJac τ H₀ H₁ Sqq Sqp Spp W V ∈ symplecticGroup (Fin n) K := by
+  have e : genLeapfrogJac τ H₀ H₁ Sqq Sqp Spp W V
+      = kickJac τ H₁ * ((glBAdjJac τ Sqq Sqp * glCAdjJac τ Spp V) *
+        ((glCFwdJac τ Sqp Spp * glBFwdJac τ Sqq W) * kickJac τ H₀)) := by
+    simp only [genLeapfrogJac, Matrix.mul_assoc]
+  rw [e]
+  exact Submonoid.mul_mem _ (kickJac_mem τ H₁ h1)
+    (Submonoid.mul_mem _ (sympEulerAdj_mem τ Sqq Sqp Spp V hqq hpp hV)
+      (Submonoid.mul_mem _ (sympEuler_mem τ Sqq Sqp Spp W hqq hpp hW) (kickJac_mem τ H₀ h0)))
+
+/-- Non-vacuity of the solvability hypotheses (`n = 1`, `τ = 1/2`): forward pair with `Sqp = 2`
+(`1 + τ Sqp = 2`, `W = 1/2`), adjoint pair with `Sqp = 1` (`1 − τ Sqpᵀ = 1/2`, `V = 2`). -/
+example : (!![1 / 2] : Mat 1 ℚ) * (1 + (1 / 2 : ℚ) • !![2]) = 1 := by
+  ext i j; fin_cases i; fin_cases j; norm_num [Matrix.mul_apply]
+
+example : (!![2] : Mat 1 ℚ) * (1 - (1 / 2 : ℚ) • (!![1] : Mat 1 ℚ)ᵀ) = 1 := by
+  ext i j; fin_cases i; fin_cases j; norm_num [Matrix.mul_apply]
+
+/-- The four sub-steps are linear maps with exactly the Jacobians used above (for the implicit ones:
+any exact solution of the fixed-point equation). -/
+theorem glBFwd_linear (τ : K) (Sqq Sqp W : Mat n K) (hW : W * (1 + τ • Sqp) = 1)
+    (x : Phase n K) (p' : Fin n → K) (h : glBFwdEq τ Sqq Sqp x p') :
+    (x.1, p') = unpack ((glBFwdJac τ Sqq W).mulVec (pack x)) := by
+  rw [glBFwdJac, unpack_mulVec]
+  have h1 : (1 + τ • Sqp).mulVec p' = x.2 - τ • Sqq.mulVec x.1 := by
+    rw [glBFwdEq, glDh2Dpos] at h
+    rw [add_mulVec, one_mulVec, smul_mulVec]
+    funext i
+    have hi := congrFun h i
+    simp only [Pi.add_apply, Pi.sub_apply, Pi.smul_apply, smul_eq_mul] at hi ⊢
+    linear_combination hi
+  have h2 : p' = W.mulVec (x.2 - τ • Sqq.mulVec x.1) := by
+    rw [← h1, mulVec_mulVec, hW, one_mulVec]
+  refine Prod.ext (by simp) ?_
+  simp only [h2, neg_mulVec, smul_mulVec, mulVec_sub, mulVec_smul, mulVec_mulVec]
+  abel
+
+theorem glCFwd_linear (τ : K) (Sqp Spp : Mat n K) (x : Phase n K) :
+    glCFwd τ Sqp Spp x = unpack ((glCFwdJac τ Sqp Spp).mulVec (pack x)) := by
+  rw [glCFwdJac, unpack_mulVec]
+  refine Prod.ext ?_ (by simp [glCFwd])
+  simp only [glCFwd, glDh2Dmom, add_mulVec, one_mulVec, smul_mulVec, smul_add]
+  abel
+
+theorem glCAdj_linear (τ : K) (Sqp Spp V : Mat n K) (hV : V * (1 - τ • Sqpᵀ) = 1)
+    (x : Phase n K) (q' : Fin n → K) (h : glCAdjEq τ Sqp Spp x q') :
+    (q', x.2) = unpack ((glCAdjJac τ Spp V).mulVec (pack x)) := by
+  rw [glCAdjJac, unpack_mulVec]
+  have h1 : (1 - τ • Sqpᵀ).mulVec q' = x.1 + τ • Spp.mulVec x.2 := by
+    rw [glCAdjEq, glDh2Dmom] at h
+    rw [sub_mulVec, one_mulVec, smul_mulVec]
+    funext i
+    have hi := congrFun h i
+    simp only [Pi.add_apply, Pi.sub_apply, Pi.smul_apply, smul_eq_mul] at hi ⊢
+    linear_combination hi
+  have h2 : q' = V.mulVec (x.1 + τ • Spp.mulVec x.2) := by
+    rw [← h1, mulVec_mulVec, hV, one_mulVec]
+  refine Prod.ext ?_ (by simp)
+  simp only [h2, smul_mulVec, mulVec_add, mulVec_smul, mulVec_mulVec]
+
+theorem glBAdj_linear (τ : K) (Sqq Sqp : Mat n K) (x : Phase n K) :
+    glBAdj τ Sqq Sqp x = unpack ((glBAdjJac τ Sqq Sqp).mulVec (pack x)) := by
+  rw [glBAdjJac, unpack_mulVec]
+  refine Prod.ext (by simp [glBAdj]) ?_
+  simp only [glBAdj, glDh2Dpos, sub_mulVec, one_mulVec, smul_mulVec, neg_mulVec, smul_add]
+  abel
+
+/-! ### 7. Constrained leapfrog, LINEAR constraint `C q = d`
+
+The cotangent bundle of the affine manifold is `{(q, p) : C q = d, C N p = 0}`; its tangent vectors
+are the `(δq, δp)` with `C δq = 0`, `C N δp = 0` (`IsTan`).  The step is symplectic as a map of this
+bundle: its Jacobian preserves the tangent vectors and the canonical two-form restricted to them
+(`PresympOn`; with `T` a basis of the tangent space this is the matrix identity
+`(M T)ᵀ J (M T) = Tᵀ J T` that the harness evaluates on finite-difference Jacobians).
+
+NOT proved (stretch goal of DESIGN §8, `…_partial` in the sense of BUILDING rule 3): curved
+manifolds.  Full statement: for a smooth constraint `c` with Jacobian field `∂c`, Gram matrix
+`∂c N ∂cᵀ` invertible along the step and the projection equation solved exactly, the Jacobian `M` of
+`ConstrainedLeapfrogIntegrator._step` satisfies `IsTan (∂c q') N (M T)` and
+`(M T)ᵀ J (M T) = Tᵀ J T` for every `T` with `IsTan (∂c q) N T`.  Missing: the per-map lemma
+"`Π(λ)` contributes `dq ∧ d(∂cᵀ λ)`, which vanishes on vectors with `∂c dq = 0`" with a
+position-dependent `∂c` (second derivatives of `c` enter the Jacobian of the projection). -/
+
+/-- `project_onto_cotangent_space` is multiplication by `Π = 1 − R N`. -/
+theorem cotProject_eq {m : Nat} (C : Matrix (Fin m) (Fin n) K) (N : Mat n K)
+    (Ginv : Matrix (Fin m) (Fin m) K) (p : Fin n → K) :
+    cotProject C N Ginv p = (1 - gramR C Ginv * N).mulVec p := by
+  simp [cotProject, gramR, sub_mulVec, mulVec_mulVec, Matrix.mul_assoc]
+
+/-- The retraction lands on the constraint manifold. -/
+theorem retract_constr {m : Nat} (C : Matrix (Fin m) (Fin n) K) (d : Fin m → K) (N : Mat n K)
+    (Ginv : Matrix (Fin m) (Fin m) K) (t : K) (x : Phase n K) (hG : C * N * Cᵀ * Ginv = 1) :
+    C.mulVec (retract C d N Ginv t x).1 = d := by
+  have key : ∀ r, C.mulVec (N.mulVec (Cᵀ.mulVec (Ginv.mulVec r))) = r := by
+    intro r
+    have : C * (N * (Cᵀ * Ginv)) = 1 := by rw [← hG]; simp only [Matrix.mul_assoc]
+    simp only [mulVec_mulVec, this, one_mulVec]
+  simp only [retract, mulVec_sub, key]
+  abel
+
+/-- The retraction is affine with ambient Jacobian `retrJac` (`t ≠ 0`; for `t = 0` the code's
+Gram matrix `C (|t| N) Cᵀ` is singular). -/
+theorem retract_linear {m : Nat} (C : Matrix (Fin m) (Fin n) K) (d : Fin m → K) (N : Mat n K)
+    (Ginv : Matrix (Fin m) (Fin m) K) (t : K) (ht : t ≠ 0) (x δ : Phase n K) :
+    retract C d N Ginv t (x + δ)
+      = retract C d N Ginv t x + unpack ((retrJac t N (gramR C Ginv)).mulVec (pack δ)) := by
+  rw [retrJac, unpack_mulVec]
+  simp only [retract, drift, gramR, Prod.fst_add, Prod.snd_add, sub_mulVec, one_mulVec,
+    neg_mulVec, smul_mulVec, ← mulVec_mulVec, mulVec_add, mulVec_sub, mulVec_smul,
+    smul_sub, smul_add, smul_smul, inv_mul_cancel₀ ht, one_smul]
+  refine Prod.ext ?_ ?_
+  · simp only [Prod.fst_add]; module
+  · simp only [Prod.snd_add]; module
+
+
+private theorem ginv_symm {m : Nat} (C : Matrix (Fin m) (Fin n) K) (N : Mat n K)
+    (Ginv : Matrix (Fin m) (Fin m) K) (hN : Nᵀ = N) (hG : C * N * Cᵀ * Ginv = 1) :
+    Ginvᵀ = Ginv := by
+  have h1 : Ginvᵀ * (C * N * Cᵀ) = 1 := by
+    have := congrArg transpose hG
+    simpa [transpose_mul, hN, Matrix.mul_assoc] using this
+  calc Ginvᵀ = Ginvᵀ * (C * N * Cᵀ * Ginv) := by rw [hG, Matrix.mul_one]
+    _ = Ginvᵀ * (C * N * Cᵀ) * Ginv := by simp only [Matrix.mul_assoc]
+    _ = Ginv := by rw [h1, Matrix.one_mul]
+
+/-- `ConstrainedLeapfrogIntegrator._step_a` (kick, then cotangent projection) for a linear
+constraint: maps tangent vectors of the constrained cotangent bundle to tangent vectors and
+preserves the canonical two-form on them. (In the ambient space it is NOT symplectic.) -/
+theorem conStepA_presymp {m : Nat} (C : Matrix (Fin m) (Fin n) K) (N H : Mat n K)
+    (Ginv : Matrix (Fin m) (Fin m) K) (t : K) (hN : Nᵀ = N) (hH : Hᵀ = H)
+    (hG : C * N * Cᵀ * Ginv = 1) :
+    PresympOn C N (conStepAJac t H N (gramR C Ginv)) := by
+  intro k T hT
+  obtain ⟨Tq, Tp, rfl⟩ : ∃ Tq Tp, T = fromRows Tq Tp := ⟨_, _, (fromRows_toRows T).symm⟩
+  simp only [IsTan, toRows₁_fromRows, toRows₂_fromRows] at hT
+  obtain ⟨hq, hp⟩ := hT
+  have hGs := ginv_symm C N Ginv hN hG
+  set R := gramR C Ginv with hR
+  have hRs : Rᵀ = R := by simp [hR, gramR, transpose_mul, hGs, Matrix.mul_assoc]
+  have hRq : R * Tq = 0 := by rw [hR, gramR, Matrix.mul_assoc, hq, Matrix.mul_zero]
+  have hCNP : C * N * (1 - R * N) = 0 := by
+    rw [Matrix.mul_sub, Matrix.mul_one, hR, gramR]
+    have : C * N * (Cᵀ * Ginv * C * N) = (C * N * Cᵀ * Ginv) * (C * N) := by
+      simp only [Matrix.mul_assoc]
+    rw [this, hG, Matrix.one_mul, sub_self]
+  have hM : conStepAJac t H N R * fromRows Tq Tp
+      = fromRows Tq ((1 - R * N) * (Tp - t • (H * Tq))) := by
+    rw [conStepAJac, cotProjJac, kickJac, fromBlocks_multiply, fromBlocks_mul_fromRows]
+    congr 1
+    · simp
+    · simp [Matrix.mul_assoc, sub_eq_add_neg, add_comm, Matrix.mul_add]
+  rw [hM]
+  refine ⟨⟨by simpa using hq, ?_⟩, ?_⟩
+  · rw [toRows₂_fromRows, ← Matrix.mul_assoc, hCNP, Matrix.zero_mul]
+  · have hPq : (1 - R * N)ᵀ * Tq = Tq := by
+      rw [transpose_sub, transpose_one, transpose_mul, hRs, hN, Matrix.sub_mul, Matrix.one_mul,
+        Matrix.mul_assoc, hRq, Matrix.mul_zero, sub_zero]
+    have hqP : Tqᵀ * (1 - R * N) = Tqᵀ := by
+      have := congrArg transpose hPq
+      rwa [transpose_mul, transpose_transpose] at this
+    rw [form_fromRows, form_fromRows, transpose_mul, Matrix.mul_assoc, hPq, ← Matrix.mul_assoc, hqP]
+    simp only [transpose_sub, transpose_smul, transpose_mul, hH, Matrix.sub_mul, Matrix.mul_sub,
+      Matrix.smul_mul, Matrix.mul_smul, Matrix.mul_assoc]
+    abel
+
+/-- One inner iteration of `_step_b` (drift, exact retraction, cotangent projection). -/
+theorem conStepB_presymp {m : Nat} (C : Matrix (Fin m) (Fin n) K) (N : Mat n K)
+    (Ginv : Matrix (Fin m) (Fin m) K) (t : K) (hN : Nᵀ = N) :
+    PresympOn C N (conStepBJac t N (gramR C Ginv)) := by
+  intro k T hT
+  obtain ⟨Tq, Tp, rfl⟩ : ∃ Tq Tp, T = fromRows Tq Tp := ⟨_, _, (fromRows_toRows T).symm⟩
+  simp only [IsTan, toRows₁_fromRows, toRows₂_fromRows] at hT
+  obtain ⟨hq, hp⟩ := hT
+  set R := gramR C Ginv with hR
+  have hRq : R * Tq = 0 := by rw [hR, gramR, Matrix.mul_assoc, hq, Matrix.mul_zero]
+  have hPp : (1 - R * N) * Tp = Tp := by
+    rw [Matrix.sub_mul, Matrix.one_mul, hR, gramR]
+    have : Cᵀ * Ginv * C * N * Tp = Cᵀ * Ginv * (C * N * Tp) := by simp only [Matrix.mul_assoc]
+    rw [this, hp, Matrix.mul_zero, sub_zero]
+  have hM : conStepBJac t N R * fromRows Tq Tp = fromRows (Tq + t • (N * Tp)) Tp := by
+    rw [conStepBJac, cotProjJac, retrJac, Matrix.mul_assoc, fromBlocks_mul_fromRows,
+      fromBlocks_mul_fromRows]
+    simp [Matrix.sub_mul, Matrix.mul_assoc, hRq, hPp]
+  rw [hM]
+  refine ⟨⟨?_, by simpa using hp⟩, ?_⟩
+  · rw [toRows₁_fromRows, Matrix.mul_add, hq, Matrix.mul_smul, ← Matrix.mul_assoc, hp]; simp
+  · rw [form_fromRows, form_fromRows]
+    simp only [transpose_add, transpose_smul, transpose_mul, hN, Matrix.add_mul, Matrix.mul_add,
+      Matrix.smul_mul, Matrix.mul_smul, Matrix.mul_assoc]
+    abel
+
+/-- Jacobian of the whole `ConstrainedLeapfrogIntegrator._step` (any number `k` of inner steps, any
+step sizes) for a linear constraint, unfolded: tangent vectors stay tangent, the two-form on them
+is preserved. -/
+theorem conLeapfrog_presymp_linear {m : Nat} (C : Matrix (Fin m) (Fin n) K) (N H₀ H₁ : Mat n K)
+    (Ginv : Matrix (Fin m) (Fin m) K) (τ ti : K) (k : Nat) (hN : Nᵀ = N) (h0 : H₀ᵀ = H₀)
+    (h1 : H₁ᵀ = H₁) (hG : C * N * Cᵀ * Ginv = 1) {j : Nat}
+    (T : Matrix (Fin n ⊕ Fin n) (Fin j) K) (hT : IsTan C N T) :
+    IsTan C N (conLeapfrogJac τ ti k H₀ H₁ N (gramR C Ginv) * T) ∧
+      (conLeapfrogJac τ ti k H₀ H₁ N (gramR C Ginv) * T)ᵀ * J (Fin n) K
+          * (conLeapfrogJac τ ti k H₀ H₁ N (gramR C Ginv) * T)
+        = Tᵀ * J (Fin n) K * T :=
+  ((conStepA_presymp C N H₁ Ginv τ hN h1 hG).mul
+    (((conStepB_presymp C N Ginv ti hN).pow k).mul (conStepA_presymp C N H₀ Ginv τ hN h0 hG)))
+    j T hT
+
+/-- Non-vacuity: `n = 2`, one constraint `q₀ + q₁ = d`, identity metric, `Ginv = 1/2`, and a
+non-zero tangent vector `(δq, δp) = ((1, −1), (2, −2))`. -/
+example : (!![1, 1] : Matrix (Fin 1) (Fin 2) ℚ) * (1 : Mat 2 ℚ) * (!![1, 1] : Matrix (Fin 1) (Fin 2) ℚ)ᵀ
+    * !![1 / 2] = 1 := by
+  rw [Matrix.mul_one]
+  ext i j; fin_cases i; fin_cases j
+  simp [Matrix.mul_apply, Matrix.vecMul, dotProduct, Fin.sum_univ_two]
+  norm_num
+
+example : IsTan (!![1, 1] : Matrix (Fin 1) (Fin 2) ℚ) (1 : Mat 2 ℚ)
+    (fromRows !![1; -1] !![2; -2] : Matrix (Fin 2 ⊕ Fin 2) (Fin 1) ℚ) := by
+  constructor
+  · rw [toRows₁_fromRows]; ext i j; fin_cases i; fin_cases j
+    norm_num [Matrix.mul_apply, Fin.sum_univ_two]
+  · rw [toRows₂_fromRows]; ext i j; fin_cases i; fin_cases j
+    norm_num [Matrix.mul_apply, Fin.sum_univ_two]
 
 end MiciVerif.C03
